@@ -26,6 +26,9 @@
 (*                          stay in) the queue after the sender exited     *)
 (*   RcvExitSkipsCancelPending  a receiver that exits because the node was *)
 (*                          closed leaves pending requests unanswered      *)
+(*   SenderReconnectStrandsPending  the sender re-creates the stream while *)
+(*                          the receiver is between two reads: nobody      *)
+(*                          fails the requests pending on the old stream   *)
 (***************************************************************************)
 EXTENDS Integers, Sequences, FiniteSets, TLC
 
@@ -45,8 +48,8 @@ CONSTANTS
 VARIABLES
   cpc, ctx, resp, taken,                    \* callers and their reply channels
   sendQ,
-  spc, cur, sndErr, sretries, sndEpoch,     \* sender
-  rpc, rcvEpoch, rmsg,                      \* receiver
+  spc, cur, sndErr, sretries, sndEpoch, raced,  \* sender (raced: the stream was cancelled while the write was in progress)
+  rpc, rcvEpoch, rmsg, rcvLast,             \* receiver (rcvLast: the stream it last read from, 0 = none / known broken)
   watcher,
   broken, established,                      \* the two lock-free flags
   lkW, lkR, lkWait,                         \* RW lock around the stream: writer, readers, waiting writers
@@ -57,7 +60,7 @@ VARIABLES
   closed,
   enqOrder, started                         \* history: hand-off order, handler start order per epoch
 
-vars == <<cpc, ctx, resp, taken, sendQ, spc, cur, sndErr, sretries, sndEpoch, rpc, rcvEpoch, rmsg, watcher,
+vars == <<cpc, ctx, resp, taken, sendQ, spc, cur, sndErr, sretries, sndEpoch, raced, rpc, rcvEpoch, rmsg, rcvLast, watcher,
           broken, established, lkW, lkR, lkWait, epoch, alive, routers, rmBlocked, c2s, s2c, up, crashes,
           mutHeld, handlers, items, closed, enqOrder, started>>
 
@@ -69,8 +72,8 @@ Init ==
   /\ cpc = [r \in Reqs |-> "idle"] /\ ctx = [r \in Reqs |-> "live"]
   /\ resp = [r \in Reqs |-> <<>>] /\ taken = [r \in Reqs |-> 0]
   /\ sendQ = <<>>
-  /\ spc = "idle" /\ cur = 0 /\ sndErr = FALSE /\ sretries = 0 /\ sndEpoch = 0
-  /\ rpc = "none" /\ rcvEpoch = 0 /\ rmsg = 0
+  /\ spc = "idle" /\ cur = 0 /\ sndErr = FALSE /\ sretries = 0 /\ sndEpoch = 0 /\ raced = FALSE
+  /\ rpc = "none" /\ rcvEpoch = 0 /\ rmsg = 0 /\ rcvLast = 0
   /\ watcher = [r \in Reqs |-> "off"]
   /\ broken = FALSE /\ established = FALSE
   /\ lkW = "none" /\ lkR = {} /\ lkWait = {}
@@ -101,7 +104,7 @@ Issue(r) ==
   /\ cpc[r] = "idle" /\ ~rmBlocked
   /\ routers' = IF HasRouter(r) THEN routers \cup {r} ELSE routers
   /\ cpc' = [cpc EXCEPT ![r] = "handoff"]
-  /\ UNCHANGED <<ctx, resp, taken, sendQ, spc, cur, sndErr, sretries, sndEpoch, rpc, rcvEpoch, rmsg, watcher, broken,
+  /\ UNCHANGED <<ctx, resp, taken, sendQ, spc, cur, sndErr, sretries, sndEpoch, raced, rpc, rcvEpoch, rmsg, rcvLast, watcher, broken,
                  established, lkW, lkR, lkWait, epoch, alive, rmBlocked, c2s, s2c, up, crashes, mutHeld, handlers,
                  items, closed, enqOrder, started>>
 
@@ -113,7 +116,7 @@ HandOffQueue(r) ==
   /\ sendQ' = Append(sendQ, r)
   /\ cpc' = [cpc EXCEPT ![r] = AfterHandOff(r)]
   /\ enqOrder' = Append(enqOrder, r)
-  /\ UNCHANGED <<ctx, resp, taken, spc, cur, sndErr, sretries, sndEpoch, rpc, rcvEpoch, rmsg, watcher, broken,
+  /\ UNCHANGED <<ctx, resp, taken, spc, cur, sndErr, sretries, sndEpoch, raced, rpc, rcvEpoch, rmsg, rcvLast, watcher, broken,
                  established, lkW, lkR, lkWait, epoch, alive, routers, rmBlocked, c2s, s2c, up, crashes, mutHeld,
                  handlers, items, closed, started>>
 
@@ -122,7 +125,7 @@ HandOffDirect(r) ==
   /\ spc' = "check" /\ cur' = r /\ sndErr' = FALSE
   /\ cpc' = [cpc EXCEPT ![r] = AfterHandOff(r)]
   /\ enqOrder' = Append(enqOrder, r)
-  /\ UNCHANGED <<ctx, resp, taken, sendQ, sretries, sndEpoch, rpc, rcvEpoch, rmsg, watcher, broken, established, lkW,
+  /\ UNCHANGED <<ctx, resp, taken, sendQ, sretries, sndEpoch, raced, rpc, rcvEpoch, rmsg, rcvLast, watcher, broken, established, lkW,
                  lkR, lkWait, epoch, alive, routers, rmBlocked, c2s, s2c, up, crashes, mutHeld, handlers, items,
                  closed, started>>
 
@@ -131,7 +134,7 @@ ClosedReply(r) ==
   /\ cpc[r] = "handoff" /\ closed /\ ~rmBlocked
   /\ Delivered(r, "err")
   /\ cpc' = [cpc EXCEPT ![r] = AfterHandOff(r)]
-  /\ UNCHANGED <<ctx, taken, sendQ, spc, cur, sndErr, sretries, sndEpoch, rpc, rcvEpoch, rmsg, watcher, broken,
+  /\ UNCHANGED <<ctx, taken, sendQ, spc, cur, sndErr, sretries, sndEpoch, raced, rpc, rcvEpoch, rmsg, rcvLast, watcher, broken,
                  established, lkW, lkR, lkWait, epoch, alive, rmBlocked, c2s, s2c, up, crashes, mutHeld, handlers,
                  items, closed, enqOrder, started>>
 
@@ -140,7 +143,7 @@ CtxReply(r) ==
   /\ cpc[r] = "handoff" /\ ctx[r] = "ended" /\ "EnqIgnoresCtx" \notin Devs /\ ~rmBlocked
   /\ Delivered(r, "err")
   /\ cpc' = [cpc EXCEPT ![r] = AfterHandOff(r)]
-  /\ UNCHANGED <<ctx, taken, sendQ, spc, cur, sndErr, sretries, sndEpoch, rpc, rcvEpoch, rmsg, watcher, broken,
+  /\ UNCHANGED <<ctx, taken, sendQ, spc, cur, sndErr, sretries, sndEpoch, raced, rpc, rcvEpoch, rmsg, rcvLast, watcher, broken,
                  established, lkW, lkR, lkWait, epoch, alive, rmBlocked, c2s, s2c, up, crashes, mutHeld, handlers,
                  items, closed, enqOrder, started>>
 
@@ -151,7 +154,7 @@ Take(r) ==
   /\ LET v == resp[r][taken[r] + 1] IN
        cpc' = [cpc EXCEPT ![r] = IF Streaming(r) /\ v = "ok" /\ taken'[r] < MaxItems THEN "wait"
                                   ELSE IF Streaming(r) THEN "delete" ELSE "done"]
-  /\ UNCHANGED <<ctx, resp, sendQ, spc, cur, sndErr, sretries, sndEpoch, rpc, rcvEpoch, rmsg, watcher, broken,
+  /\ UNCHANGED <<ctx, resp, sendQ, spc, cur, sndErr, sretries, sndEpoch, raced, rpc, rcvEpoch, rmsg, rcvLast, watcher, broken,
                  established, lkW, lkR, lkWait, epoch, alive, routers, rmBlocked, c2s, s2c, up, crashes, mutHeld,
                  handlers, items, closed, enqOrder, started>>
 
@@ -159,7 +162,7 @@ Take(r) ==
 StreamEarlyDone(r) ==
   /\ Streaming(r) /\ cpc[r] = "wait" /\ taken[r] >= 1
   /\ cpc' = [cpc EXCEPT ![r] = "delete"]
-  /\ UNCHANGED <<ctx, resp, taken, sendQ, spc, cur, sndErr, sretries, sndEpoch, rpc, rcvEpoch, rmsg, watcher, broken,
+  /\ UNCHANGED <<ctx, resp, taken, sendQ, spc, cur, sndErr, sretries, sndEpoch, raced, rpc, rcvEpoch, rmsg, rcvLast, watcher, broken,
                  established, lkW, lkR, lkWait, epoch, alive, routers, rmBlocked, c2s, s2c, up, crashes, mutHeld,
                  handlers, items, closed, enqOrder, started>>
 
@@ -168,7 +171,7 @@ TakeCtx(r) ==
   /\ cpc[r] = "wait" /\ ctx[r] = "ended"
   /\ (Kind[r] = "sw") => "OneWayConfirmIgnoresCtx" \notin Devs
   /\ cpc' = [cpc EXCEPT ![r] = IF Streaming(r) THEN "delete" ELSE "done"]
-  /\ UNCHANGED <<ctx, resp, taken, sendQ, spc, cur, sndErr, sretries, sndEpoch, rpc, rcvEpoch, rmsg, watcher, broken,
+  /\ UNCHANGED <<ctx, resp, taken, sendQ, spc, cur, sndErr, sretries, sndEpoch, raced, rpc, rcvEpoch, rmsg, rcvLast, watcher, broken,
                  established, lkW, lkR, lkWait, epoch, alive, routers, rmBlocked, c2s, s2c, up, crashes, mutHeld,
                  handlers, items, closed, enqOrder, started>>
 
@@ -183,7 +186,7 @@ DeleteRouter(r) ==
   /\ rmBlocked' = IF rmBlocked /\ rmsg = r THEN FALSE ELSE rmBlocked
   /\ taken' = [taken EXCEPT ![r] = Len(resp[r])]       \* whatever was buffered is dropped
   /\ cpc' = [cpc EXCEPT ![r] = "done"]
-  /\ UNCHANGED <<ctx, resp, sendQ, spc, cur, sndErr, sretries, sndEpoch, rpc, rcvEpoch, rmsg, watcher, broken,
+  /\ UNCHANGED <<ctx, resp, sendQ, spc, cur, sndErr, sretries, sndEpoch, raced, rpc, rcvEpoch, rmsg, rcvLast, watcher, broken,
                  established, lkW, lkR, lkWait, epoch, alive, c2s, s2c, up, crashes, mutHeld, handlers, items, closed,
                  enqOrder, started>>
 
@@ -196,13 +199,13 @@ CanWLock(p) == lkW = "none" /\ lkR = {}
 (***************************************************************************)
 (* Sender                                                                  *)
 (***************************************************************************)
-SUnch == UNCHANGED <<cpc, ctx, taken, rpc, rcvEpoch, rmsg, c2s, s2c, up, crashes, mutHeld, handlers, items, closed,
+SUnch == UNCHANGED <<cpc, ctx, taken, rpc, rcvEpoch, rmsg, rcvLast, c2s, s2c, up, crashes, mutHeld, handlers, items, closed,
                      enqOrder, started>>
 
 Dequeue ==
   /\ spc = "idle" /\ sendQ # <<>>
   /\ cur' = Head(sendQ) /\ sendQ' = Tail(sendQ) /\ spc' = "check" /\ sndErr' = FALSE
-  /\ SUnch /\ UNCHANGED <<resp, sretries, sndEpoch, watcher, broken, established, lkW, lkR, lkWait, epoch, alive,
+  /\ SUnch /\ UNCHANGED <<resp, sretries, sndEpoch, raced, watcher, broken, established, lkW, lkR, lkWait, epoch, alive,
                           routers, rmBlocked>>
 
 \* the parent context is done: the sender exits (the select may pick this case
@@ -210,7 +213,7 @@ Dequeue ==
 SenderExit ==
   /\ spc = "idle" /\ closed
   /\ spc' = "exited"
-  /\ SUnch /\ UNCHANGED <<sendQ, resp, routers, cur, sndErr, sretries, sndEpoch, watcher, broken, established, lkW, lkR,
+  /\ SUnch /\ UNCHANGED <<sendQ, resp, routers, cur, sndErr, sretries, sndEpoch, raced, watcher, broken, established, lkW, lkR,
                           lkWait, epoch, alive, rmBlocked>>
 
 \* Repaired design (deviation BufferedSendQStrands absent): whoever finds the
@@ -220,14 +223,14 @@ Drain ==
   /\ closed /\ sendQ # <<>> /\ "BufferedSendQStrands" \notin Devs /\ ~rmBlocked
   /\ spc \in {"idle", "exited"}
   /\ Delivered(Head(sendQ), "err") /\ sendQ' = Tail(sendQ)
-  /\ SUnch /\ UNCHANGED <<spc, cur, sndErr, sretries, sndEpoch, watcher, broken, established, lkW, lkR, lkWait, epoch,
+  /\ SUnch /\ UNCHANGED <<spc, cur, sndErr, sretries, sndEpoch, raced, watcher, broken, established, lkW, lkR, lkWait, epoch,
                           alive, rmBlocked>>
 
 \* isConnected(): both flags are read here; what follows acts on these values
 CheckConnected ==
   /\ spc = "check"
   /\ spc' = IF established /\ ~broken THEN "brokenchk" ELSE IF ~established THEN "dial" ELSE "readbroken"
-  /\ SUnch /\ UNCHANGED <<sendQ, resp, cur, sndErr, sretries, sndEpoch, watcher, broken, established, lkW, lkR, lkWait,
+  /\ SUnch /\ UNCHANGED <<sendQ, resp, cur, sndErr, sretries, sndEpoch, raced, watcher, broken, established, lkW, lkR, lkWait,
                           epoch, alive, routers, rmBlocked>>
 
 \* never connected: dial and create the first stream (no other goroutine uses the lock yet)
@@ -236,17 +239,18 @@ Dial ==
   /\ IF up /\ ~closed /\ epoch < MaxEpoch
        THEN /\ epoch' = epoch + 1 /\ alive' = [alive EXCEPT ![epoch + 1] = "open"]
             /\ broken' = FALSE /\ established' = TRUE /\ rpc' = "rlockwait"
+            /\ rcvLast' = epoch + 1        \* the receiver is started for this stream
             /\ spc' = "brokenchk"
-       ELSE /\ broken' = TRUE /\ spc' = "brokenchk" /\ UNCHANGED <<epoch, alive, established, rpc>>
+       ELSE /\ broken' = TRUE /\ spc' = "brokenchk" /\ UNCHANGED <<epoch, alive, established, rpc, rcvLast>>
   /\ UNCHANGED <<cpc, ctx, taken, rcvEpoch, rmsg, c2s, s2c, up, crashes, mutHeld, handlers, items, closed, enqOrder,
-                 started, sendQ, resp, cur, sndErr, sretries, sndEpoch, watcher, lkW, lkR, lkWait, routers, rmBlocked>>
+                 started, sendQ, resp, cur, sndErr, sretries, sndEpoch, raced, watcher, lkW, lkR, lkWait, routers, rmBlocked>>
 
 \* connect(): "if c.streamBroken.get() { c.reconnect(1) }"
 ReadBrokenForReconnect ==
   /\ spc = "readbroken"
   /\ spc' = IF broken THEN "s_lockwait" ELSE "brokenchk"
   /\ sretries' = 0
-  /\ SUnch /\ UNCHANGED <<sendQ, resp, cur, sndErr, sndEpoch, watcher, broken, established, lkW, lkR, lkWait, epoch,
+  /\ SUnch /\ UNCHANGED <<sendQ, resp, cur, sndErr, sndEpoch, raced, watcher, broken, established, lkW, lkR, lkWait, epoch,
                           alive, routers, rmBlocked>>
 
 \* reconnect(1): Lock().  Deviation StaleBrokenRead: a blocking Lock; repaired
@@ -260,7 +264,7 @@ SLockWait ==
        ELSE IF "StaleBrokenRead" \in Devs
               THEN lkWait' = lkWait \cup {"snd"} /\ "snd" \notin lkWait /\ UNCHANGED <<lkW, spc>>
               ELSE spc' = "brokenchk" /\ UNCHANGED <<lkW, lkWait>>
-  /\ SUnch /\ UNCHANGED <<sendQ, resp, cur, sndErr, sretries, sndEpoch, watcher, broken, established, lkR, epoch, alive,
+  /\ SUnch /\ UNCHANGED <<sendQ, resp, cur, sndErr, sretries, sndEpoch, raced, watcher, broken, established, lkR, epoch, alive,
                           routers, rmBlocked>>
 
 NewStreamOK == up /\ ~closed /\ epoch < MaxEpoch
@@ -276,14 +280,14 @@ SLocked ==
               ELSE /\ UNCHANGED <<epoch, alive>>
                    /\ IF sretries >= 1 THEN broken' = TRUE /\ spc' = "brokenchk" /\ UNCHANGED sretries
                       ELSE spc' = "s_sleep" /\ UNCHANGED <<broken, sretries>>
-  /\ SUnch /\ UNCHANGED <<sendQ, resp, cur, sndErr, sndEpoch, watcher, established, lkR, lkWait, routers, rmBlocked>>
+  /\ SUnch /\ UNCHANGED <<sendQ, resp, cur, sndErr, sndEpoch, raced, watcher, established, lkR, lkWait, routers, rmBlocked>>
 
 \* the sender's single back-off sleep (its timer does fire: client-internal)
 SSleepDone ==
   /\ spc = "s_sleep"
   /\ IF closed THEN spc' = "brokenchk" /\ UNCHANGED sretries
      ELSE spc' = "s_lockwait" /\ sretries' = sretries + 1
-  /\ SUnch /\ UNCHANGED <<sendQ, resp, cur, sndErr, sndEpoch, watcher, broken, established, lkW, lkR, lkWait, epoch,
+  /\ SUnch /\ UNCHANGED <<sendQ, resp, cur, sndErr, sndEpoch, raced, watcher, broken, established, lkW, lkR, lkWait, epoch,
                           alive, routers, rmBlocked>>
 
 \* "if c.streamBroken.get() { route stream-down error; continue }"
@@ -292,7 +296,7 @@ BrokenCheck ==
   /\ IF broken
        THEN /\ ~rmBlocked /\ Delivered(cur, "err") /\ spc' = "idle" /\ cur' = 0
        ELSE /\ spc' = "ctxchk" /\ UNCHANGED <<resp, routers, cur>>
-  /\ SUnch /\ UNCHANGED <<sendQ, sndErr, sretries, sndEpoch, watcher, broken, established, lkW, lkR, lkWait, epoch,
+  /\ SUnch /\ UNCHANGED <<sendQ, sndErr, sretries, sndEpoch, raced, watcher, broken, established, lkW, lkR, lkWait, epoch,
                           alive, rmBlocked>>
 
 \* sendMsg: don't send if the context has already ended
@@ -301,12 +305,12 @@ CtxCheck ==
   /\ IF ctx[cur] = "ended"
        THEN spc' = "confirm" /\ sndErr' = TRUE
        ELSE spc' = "rlockwait" /\ UNCHANGED sndErr
-  /\ SUnch /\ UNCHANGED <<sendQ, resp, cur, sretries, sndEpoch, watcher, broken, established, lkW, lkR, lkWait, epoch,
+  /\ SUnch /\ UNCHANGED <<sendQ, resp, cur, sretries, sndEpoch, raced, watcher, broken, established, lkW, lkR, lkWait, epoch,
                           alive, routers, rmBlocked>>
 
 SRLock ==
   /\ spc = "rlockwait" /\ CanRLock
-  /\ lkR' = lkR \cup {"snd"} /\ sndEpoch' = epoch
+  /\ lkR' = lkR \cup {"snd"} /\ sndEpoch' = epoch /\ raced' = FALSE
   /\ watcher' = [watcher EXCEPT ![cur] = "armed"]
   /\ spc' = "sending"
   /\ SUnch /\ UNCHANGED <<sendQ, resp, cur, sndErr, sretries, broken, established, lkW, lkWait, epoch, alive, routers,
@@ -320,11 +324,15 @@ SendDone ==
         /\ UNCHANGED <<broken, sndErr>>
      \/ /\ alive[sndEpoch] # "open"
         /\ broken' = TRUE /\ sndErr' = TRUE /\ UNCHANGED c2s
+     \/ \* the write raced with the cancellation of the stream: SendMsg reports
+        \* success but the message never arrives
+        /\ alive[sndEpoch] = "cancelled" /\ raced
+        /\ UNCHANGED <<broken, sndErr, c2s>>
   /\ watcher' = [watcher EXCEPT ![cur] = "off"]
   /\ lkR' = lkR \ {"snd"}
   /\ spc' = "confirm"
-  /\ UNCHANGED <<cpc, ctx, taken, rpc, rcvEpoch, rmsg, s2c, up, crashes, mutHeld, handlers, items, closed, enqOrder,
-                 started, sendQ, resp, cur, sretries, sndEpoch, established, lkW, lkWait, epoch, alive, routers,
+  /\ UNCHANGED <<cpc, ctx, taken, rpc, rcvEpoch, rmsg, rcvLast, s2c, up, crashes, mutHeld, handlers, items, closed, enqOrder,
+                 started, sendQ, resp, cur, sretries, sndEpoch, raced, established, lkW, lkWait, epoch, alive, routers,
                  rmBlocked>>
 
 \* unblock a send-waiting one-way caller; then report a send error
@@ -333,7 +341,7 @@ Confirm ==
   /\ IF Kind[cur] = "sw" THEN Delivered(cur, "conf")
      ELSE IF sndErr THEN Delivered(cur, "err") ELSE UNCHANGED <<resp, routers>>
   /\ spc' = "idle" /\ cur' = 0
-  /\ SUnch /\ UNCHANGED <<sendQ, sndErr, sretries, sndEpoch, watcher, broken, established, lkW, lkR, lkWait, epoch,
+  /\ SUnch /\ UNCHANGED <<sendQ, sndErr, sretries, sndEpoch, raced, watcher, broken, established, lkW, lkR, lkWait, epoch,
                           alive, rmBlocked>>
 
 \* the cancellation watcher of the request being written: the context ended
@@ -342,27 +350,41 @@ WatcherFires(r) ==
   /\ watcher[r] = "armed" /\ ctx[r] = "ended"
   /\ watcher' = [watcher EXCEPT ![r] = "off"]
   /\ alive' = IF epoch > 0 /\ alive[epoch] = "open" THEN [alive EXCEPT ![epoch] = "cancelled"] ELSE alive
-  /\ UNCHANGED <<cpc, ctx, resp, taken, sendQ, spc, cur, sndErr, sretries, sndEpoch, rpc, rcvEpoch, rmsg, broken,
+  /\ raced' = (raced \/ (spc = "sending" /\ sndEpoch = epoch))
+  /\ UNCHANGED <<cpc, ctx, resp, taken, sendQ, spc, cur, sndErr, sretries, sndEpoch, rpc, rcvEpoch, rmsg, rcvLast, broken,
                  established, lkW, lkR, lkWait, epoch, routers, rmBlocked, c2s, s2c, up, crashes, mutHeld, handlers,
                  items, closed, enqOrder, started>>
 
 (***************************************************************************)
 (* Receiver                                                                *)
 (***************************************************************************)
-RUnch == UNCHANGED <<cpc, ctx, taken, sendQ, spc, cur, sndErr, sretries, sndEpoch, watcher, established, c2s, up,
+RUnch == UNCHANGED <<cpc, ctx, taken, sendQ, spc, cur, sndErr, sretries, sndEpoch, raced, watcher, established, c2s, up,
                      crashes, mutHeld, handlers, items, closed, enqOrder, started>>
 
 RRLock ==
   /\ rpc = "rlockwait" /\ CanRLock
-  /\ lkR' = lkR \cup {"rcv"} /\ rcvEpoch' = epoch /\ rpc' = "recv"
+  /\ IF rcvLast # 0 /\ rcvLast # epoch /\ "SenderReconnectStrandsPending" \notin Devs
+       THEN \* repaired design: the stream was replaced behind the receiver's back (by the
+            \* sender) before it noticed the failure of the old one: whatever still waits
+            \* for a reply on the old stream is lost and must be failed
+            /\ rpc' = "cancelpend2" /\ rcvLast' = epoch /\ UNCHANGED <<lkR, rcvEpoch>>
+       ELSE /\ lkR' = lkR \cup {"rcv"} /\ rcvEpoch' = epoch /\ rcvLast' = epoch /\ rpc' = "recv"
   /\ RUnch /\ UNCHANGED <<resp, rmsg, broken, lkW, lkWait, epoch, alive, routers, rmBlocked, s2c>>
+
+CancelPending2 ==
+  /\ rpc = "cancelpend2" /\ ~rmBlocked
+  /\ \A r \in routers : CanDeliver(r)
+  /\ resp' = [r \in Reqs |-> IF r \in routers THEN Append(resp[r], "err") ELSE resp[r]]
+  /\ routers' = {r \in routers : Streaming(r)}
+  /\ rpc' = "rlockwait"
+  /\ RUnch /\ UNCHANGED <<rcvLast, rcvEpoch, rmsg, broken, lkW, lkR, lkWait, epoch, alive, rmBlocked, s2c>>
 
 \* RecvMsg returns a message (the read lock is released before routing)
 RecvOk ==
   /\ rpc = "recv" /\ alive[rcvEpoch] = "open" /\ s2c[rcvEpoch] # <<>>
   /\ rmsg' = Head(s2c[rcvEpoch]) /\ s2c' = [s2c EXCEPT ![rcvEpoch] = Tail(@)]
   /\ lkR' = lkR \ {"rcv"} /\ rpc' = "route"
-  /\ RUnch /\ UNCHANGED <<resp, rcvEpoch, broken, lkW, lkWait, epoch, alive, routers, rmBlocked>>
+  /\ RUnch /\ UNCHANGED <<rcvLast, resp, rcvEpoch, broken, lkW, lkWait, epoch, alive, routers, rmBlocked>>
 
 \* route the response.  A full streaming channel blocks the receiver; with
 \* deviation StreamRouteBlocksUnderRM it blocks holding the router mutex.
@@ -372,12 +394,12 @@ Route ==
        THEN /\ Delivered(rmsg, "ok") /\ rmBlocked' = FALSE
             /\ rpc' = IF closed THEN "exiting" ELSE "rlockwait"
        ELSE /\ rmBlocked' = TRUE /\ UNCHANGED <<resp, routers, rpc>>
-  /\ RUnch /\ UNCHANGED <<rcvEpoch, rmsg, broken, lkW, lkR, lkWait, epoch, alive, s2c>>
+  /\ RUnch /\ UNCHANGED <<rcvLast, rcvEpoch, rmsg, broken, lkW, lkR, lkWait, epoch, alive, s2c>>
 
 \* RecvMsg fails: set the flag, release the read lock
 RecvErr ==
   /\ rpc = "recv" /\ alive[rcvEpoch] # "open"
-  /\ broken' = TRUE /\ lkR' = lkR \ {"rcv"} /\ rpc' = "cancelpend"
+  /\ broken' = TRUE /\ lkR' = lkR \ {"rcv"} /\ rpc' = "cancelpend" /\ rcvLast' = 0
   /\ RUnch /\ UNCHANGED <<resp, rcvEpoch, rmsg, lkW, lkWait, epoch, alive, routers, rmBlocked, s2c>>
 
 \* every pending request is answered "stream is down"
@@ -387,14 +409,14 @@ CancelPending ==
   /\ resp' = [r \in Reqs |-> IF r \in routers THEN Append(resp[r], "err") ELSE resp[r]]
   /\ routers' = {r \in routers : Streaming(r)}
   /\ rpc' = "r_lockwait"
-  /\ RUnch /\ UNCHANGED <<rcvEpoch, rmsg, broken, lkW, lkR, lkWait, epoch, alive, rmBlocked, s2c>>
+  /\ RUnch /\ UNCHANGED <<rcvLast, rcvEpoch, rmsg, broken, lkW, lkR, lkWait, epoch, alive, rmBlocked, s2c>>
 
 RLockWait ==
   /\ rpc = "r_lockwait"
   /\ IF CanWLock("rcv")
        THEN lkW' = "rcv" /\ lkWait' = lkWait \ {"rcv"} /\ rpc' = "r_locked"
        ELSE lkWait' = lkWait \cup {"rcv"} /\ "rcv" \notin lkWait /\ UNCHANGED <<lkW, rpc>>
-  /\ RUnch /\ UNCHANGED <<resp, rcvEpoch, rmsg, broken, lkR, epoch, alive, routers, rmBlocked, s2c>>
+  /\ RUnch /\ UNCHANGED <<rcvLast, resp, rcvEpoch, rmsg, broken, lkR, epoch, alive, routers, rmBlocked, s2c>>
 
 AfterReconnect == IF closed THEN "exiting" ELSE "rlockwait"
 
@@ -407,13 +429,13 @@ RLocked ==
               THEN /\ epoch' = epoch + 1 /\ alive' = [alive EXCEPT ![epoch + 1] = "open"]
                    /\ broken' = FALSE /\ rpc' = AfterReconnect
               ELSE rpc' = "r_sleep" /\ UNCHANGED <<epoch, alive, broken>>
-  /\ RUnch /\ UNCHANGED <<resp, rcvEpoch, rmsg, lkR, lkWait, routers, rmBlocked, s2c>>
+  /\ RUnch /\ UNCHANGED <<rcvLast, resp, rcvEpoch, rmsg, lkR, lkWait, routers, rmBlocked, s2c>>
 
 \* the receiver's back-off timer: ENVIRONMENT (it fires after up to MaxDelay)
 TimerFire ==
   /\ rpc = "r_sleep" /\ ~closed
   /\ rpc' = "r_lockwait"
-  /\ RUnch /\ UNCHANGED <<resp, rcvEpoch, rmsg, broken, lkW, lkR, lkWait, epoch, alive, routers, rmBlocked, s2c>>
+  /\ RUnch /\ UNCHANGED <<rcvLast, resp, rcvEpoch, rmsg, broken, lkW, lkR, lkWait, epoch, alive, routers, rmBlocked, s2c>>
 
 \* the sleep also ends when the node is closed, and - repaired design - when
 \* somebody else has re-created the stream (wake-up channel)
@@ -421,13 +443,13 @@ SleepInterrupted ==
   /\ rpc = "r_sleep"
   /\ closed \/ ("RcvSleepsThroughReconnect" \notin Devs /\ ~broken)
   /\ rpc' = IF closed THEN "exiting" ELSE "r_lockwait"
-  /\ RUnch /\ UNCHANGED <<resp, rcvEpoch, rmsg, broken, lkW, lkR, lkWait, epoch, alive, routers, rmBlocked, s2c>>
+  /\ RUnch /\ UNCHANGED <<rcvLast, resp, rcvEpoch, rmsg, broken, lkW, lkR, lkWait, epoch, alive, routers, rmBlocked, s2c>>
 
 \* a receiver between two steps notices the closed node
 RcvNoticeClosed ==
   /\ rpc = "rlockwait" /\ closed
   /\ rpc' = "exiting"
-  /\ RUnch /\ UNCHANGED <<resp, rcvEpoch, rmsg, broken, lkW, lkR, lkWait, epoch, alive, routers, rmBlocked, s2c>>
+  /\ RUnch /\ UNCHANGED <<rcvLast, resp, rcvEpoch, rmsg, broken, lkW, lkR, lkWait, epoch, alive, routers, rmBlocked, s2c>>
 
 \* The receiver returns.  Deviation RcvExitSkipsCancelPending: requests that are
 \* still waiting for a reply are left without an answer (the code cancels pending
@@ -441,12 +463,12 @@ ReceiverExit ==
             /\ resp' = [r \in Reqs |-> IF r \in routers THEN Append(resp[r], "err") ELSE resp[r]]
             /\ routers' = {r \in routers : Streaming(r)}
   /\ rpc' = "exited"
-  /\ RUnch /\ UNCHANGED <<rcvEpoch, rmsg, broken, lkW, lkR, lkWait, epoch, alive, rmBlocked, s2c>>
+  /\ RUnch /\ UNCHANGED <<rcvLast, rcvEpoch, rmsg, broken, lkW, lkR, lkWait, epoch, alive, rmBlocked, s2c>>
 
 (***************************************************************************)
 (* Server: receive loop with the hand-over mutex, handlers                 *)
 (***************************************************************************)
-VUnch == UNCHANGED <<cpc, ctx, resp, taken, sendQ, spc, cur, sndErr, sretries, sndEpoch, rpc, rcvEpoch, rmsg, watcher,
+VUnch == UNCHANGED <<cpc, ctx, resp, taken, sendQ, spc, cur, sndErr, sretries, sndEpoch, raced, rpc, rcvEpoch, rmsg, rcvLast, watcher,
                      broken, established, lkW, lkR, lkWait, epoch, routers, rmBlocked, up, crashes, closed, enqOrder>>
 
 \* the loop takes the next request of connection e and starts its handler;
@@ -484,7 +506,9 @@ HandlerReturn(e, r) ==
 (***************************************************************************)
 (* Environment                                                             *)
 (***************************************************************************)
-EUnch == UNCHANGED <<cpc, resp, taken, sendQ, spc, cur, sndErr, sretries, sndEpoch, rpc, rcvEpoch, rmsg, watcher,
+EUnch == UNCHANGED <<cpc, resp, taken, sendQ, spc, cur, sndErr, sretries, sndEpoch, raced, rpc, rcvEpoch, rmsg, rcvLast, watcher,
+                     broken, established, lkW, lkR, lkWait, epoch, routers, rmBlocked, enqOrder, started>>
+EUnchNoRaced == UNCHANGED <<cpc, resp, taken, sendQ, spc, cur, sndErr, sretries, sndEpoch, rpc, rcvEpoch, rmsg, rcvLast, watcher,
                      broken, established, lkW, lkR, lkWait, epoch, routers, rmBlocked, enqOrder, started>>
 
 CtxEnd(r) ==
@@ -509,7 +533,8 @@ Close ==
   /\ WithClose /\ ~closed
   /\ closed' = TRUE
   /\ alive' = [e \in Epochs |-> IF alive[e] = "open" THEN "cancelled" ELSE alive[e]]
-  /\ EUnch /\ UNCHANGED <<ctx, c2s, s2c, up, crashes, mutHeld, handlers, items>>
+  /\ raced' = (raced \/ spc = "sending")
+  /\ EUnchNoRaced /\ UNCHANGED <<ctx, c2s, s2c, up, crashes, mutHeld, handlers, items>>
 
 (***************************************************************************)
 (* Next-state relation                                                     *)
@@ -519,7 +544,7 @@ CallerStep == \E r \in Reqs : Issue(r) \/ HandOffQueue(r) \/ HandOffDirect(r) \/
 SenderStep == Dequeue \/ SenderExit \/ Drain \/ CheckConnected \/ Dial \/ ReadBrokenForReconnect \/ SLockWait \/ SLocked
               \/ SSleepDone \/ BrokenCheck \/ CtxCheck \/ SRLock \/ SendDone \/ Confirm
               \/ \E r \in Reqs : WatcherFires(r)
-ReceiverStep == RRLock \/ RecvOk \/ Route \/ RecvErr \/ CancelPending \/ RLockWait \/ RLocked \/ SleepInterrupted
+ReceiverStep == RRLock \/ CancelPending2 \/ RecvOk \/ Route \/ RecvErr \/ CancelPending \/ RLockWait \/ RLocked \/ SleepInterrupted
                 \/ RcvNoticeClosed \/ ReceiverExit
 ClientInternal == CallerStep \/ SenderStep \/ ReceiverStep
 ServerStep == \E e \in Epochs : SrvStart(e) \/ \E r \in Reqs : Release(e, r) \/ HandlerItem(e, r) \/ HandlerReturn(e, r)
